@@ -6,9 +6,9 @@ import pandas_market_calendars
 from tradingenv.env import TradingEnvXY
 
 
-def tables(seed, n=70, gaps=True, xsparse=False, holidays=True):
+def tables(seed, n=70, gaps=True, xsparse=False, holidays=True, first="2022-05-02"):
     r = np.random.default_rng(seed)
-    idx = pd.bdate_range("2022-05-02", periods=n)          # contains NYSE holidays (Memorial Day, Juneteenth, 4th of July)
+    idx = pd.bdate_range(first, periods=n)          # 2022-05-02: contains NYSE holidays (Memorial Day, Juneteenth, 4th of July)
     Y = pd.DataFrame({"A": 100 * np.exp(np.cumsum(r.normal(0, .01, n))), "B": 50 * np.exp(np.cumsum(r.normal(0, .01, n)))}, index=idx)
     X = pd.DataFrame({"f1": r.normal(0, 1, n), "f2": r.normal(0, 2, n), "f3": r.normal(3, 1, n)}, index=idx)
     if gaps:
@@ -24,7 +24,7 @@ def tables(seed, n=70, gaps=True, xsparse=False, holidays=True):
 
 
 def check_env(cfg):
-    X, Y, rate = tables(cfg["seed"], gaps=cfg["gaps"], xsparse=cfg["xsparse"])
+    X, Y, rate = tables(cfg["seed"], gaps=cfg["gaps"], xsparse=cfg["xsparse"], first=cfg.get("first", "2022-05-02"))
     kw = dict(transformer=cfg["transformer"], window=cfg["window"], stride=cfg["stride"], spread=cfg["spread"], clip=cfg["clip"],
               steps_delay=0, rate=rate, calendar="NYSE")
     if cfg.get("end"):
@@ -91,6 +91,11 @@ def configs(tier, seed):
                 "end": "2022-07-04"})            # the end bound is an exchange holiday
     out.append({"seed": seed, "transformer": None, "window": 2, "stride": None, "spread": 0.002, "clip": 5.0, "gaps": False, "xsparse": True,
                 "start": "2022-05-30", "end": "2022-06-20"})     # both bounds are exchange holidays
+    # a stretch containing ad-hoc (unscheduled) closures of the exchange: 2012-10-29/30 (hurricane Sandy), and 2018-12-05 (day of mourning)
+    out.append({"seed": seed, "transformer": "z-score", "window": 2, "stride": None, "spread": 0.001, "clip": 5.0, "gaps": True, "xsparse": False,
+                "first": "2012-09-03"})
+    out.append({"seed": seed, "transformer": None, "window": 1, "stride": None, "spread": 0.0, "clip": 5.0, "gaps": False, "xsparse": False,
+                "first": "2018-10-01"})
     return out
 
 
